@@ -47,6 +47,15 @@ def proofStep (key : Bytes) (m : Mac Bytes) : Sx → Option (Mac Bytes × String
   | .atom "encode" =>
     let (m', b) := encode m
     some (m', "enc:" ++ (match b with | some b => hx b | none => "err"))
+  | .list (.atom "addn" :: cs) => do
+    -- one Add call with any number of caveats (none, several, the same one twice)
+    let cs ← cs.mapM cav?
+    let (m', e) := add m (cs.map .plain)
+    some (m', match e with | none => "addn:ok" | some e => "addn:" ++ aerrName e)
+  | .atom "string" =>
+    -- String(): Encode, then the text form; the observable is the token inside the text
+    let (m', b) := encode m
+    some (m', "str:" ++ (match b with | some b => hx b | none => "err"))
   | .atom "encfail" =>
     -- an Encode that fails in serialisation (a caveat became unserialisable): the state change of Encode -
     -- finalise a new proof, once - has happened all the same
